@@ -471,3 +471,7 @@ def run(ctx):
              "each label to add_label - also when the value already has a label - and fails when add_label refuses")
     from rules import round5
     round5.check_every_label_goes_through_add_label(ctx, "R17.7")
+    ctx.rule("R17.8", "whether the trace uses marks is decided after every thread was scanned (mark_create on thread "
+             "lists where only a later thread defines mark types)")
+    from rules import round6
+    round6.check_mark_create_scans_all(ctx, "R17.8")
